@@ -376,6 +376,14 @@ def discharge(ctx, m, inv_ok, cr, b, bi, kind, term, T):
             if unsigned_leafs_ok(a, size_leaf_for(ctx)):
                 for dt, labels, sbi in guards_of(T, bi) or []:
                     d = norm(dt)
+                    # a private predicate helper (`self.has_tags()`): look through it
+                    if d[0] == 'call' and isinstance(d[1], str) and any(strip_generics(x_.path) == d[1] for x_ in cr.all_bodies) and len(d[2]) == 1:
+                        from .. import symb
+                        d2 = norm(symb.apply(('fn', d[1]), d[2]))
+                        while d2[0] == 'un' and d2[1] == 'Not' and all(l[0] == 'bool' for l in labels):
+                            labels = [('bool', not l[1]) for l in labels]
+                            d2 = d2[2]
+                        d = d2
                     if term_callee_is(d, '::is_empty') and ('bool', False) in labels:
                         for ln in lens:
                             if peel(ln[2][0]) == peel(d[2][0]):
